@@ -1049,6 +1049,43 @@ def run(ck):
         if not okk:
             ck.fail_case({"fn": "L-array", "case": [bf, uf, bt, ut]}, {"array": str(a1), "series": str(s1)})
 
+    # ------------------------------------------------------------------ EVERY shipped adsorbate with a thermodynamic backend
+    # (round 6, C01-m11: a molar mass taken from the database for the mass<->molar leg while the volume legs use the backend's
+    # densities; N2, CO2 and Ar agree in both sources, 41 of the shipped adsorbates do not).  Per adsorbate, at a temperature
+    # between triple and critical point: the molar mass the converters read = the backend's own, and the triples
+    # mass -> molar -> volume = mass -> volume, mass -> volume -> molar -> mass = identity (both volume bases).
+    import CoolProp as CP
+    shipped = [a for a in pg.ADSORBATE_LIST if a.properties.get("backend_name")]
+    for a in (shipped if thorough or ck.boost > 1 else rng.sample(shipped, min(len(shipped), 40))):
+        try:
+            st = CP.AbstractState("HEOS", a.backend_name)
+            lo, hi = st.Ttriple(), st.T_critical()
+            t = lo + (hi - lo) * rng.uniform(0.2, 0.8)
+            st.update(CP.QT_INPUTS, 0.0, t)
+            mm_own = st.molar_mass() * 1000
+        except Exception:  # noqa  the backend itself has no saturated state there: outside the quantifier
+            ck.count(("shipped-skip", a.name), nontrivial=False, bucket="shipped adsorbate: backend has no saturated state")
+            continue
+        ck.count(("shipped", a.name), bucket="shipped adsorbate: triple through mass/molar/volume")
+        try:
+            mm = a.molar_mass()
+            if not close(mm, frac(mm_own), rel=1e-12):
+                ck.fail_case({"fn": "constant", "quantity": "molar_mass", "adsorbate": "shipped"},
+                             {"adsorbate": a.name, "accessor": float(mm), "independent": mm_own,
+                              "what": "molar mass read by the converters differs from the backend's (the densities come from the backend)"})
+                continue
+            for vb in ("volume_liquid", "volume_gas"):
+                kw = dict(adsorbate=a, temp=t, basis_material="mass", unit_material="g")
+                direct = c_loading(1.25, "mass", vb, "g", "cm3", **kw)
+                via = c_loading(c_loading(1.25, "mass", "molar", "g", "mmol", **kw), "molar", vb, "mmol", "cm3", **kw)
+                back = c_loading(c_loading(direct, vb, "molar", "cm3", "mol", **kw), "molar", "mass", "mol", "g", **kw)
+                if not (close(via, frac(direct), rel=1e-11) and close(back, frac(1.25), rel=1e-11)):
+                    ck.fail_case({"fn": "L-triple", "adsorbate": "shipped", "through": ["mass", "molar", vb]},
+                                 {"adsorbate": a.name, "temperature": t, "mass->" + vb: float(direct), "mass->molar->" + vb: float(via),
+                                  "mass->" + vb + "->molar->mass of 1.25": float(back)})
+        except Exception as e:  # noqa
+            ck.fail_case({"fn": "L-triple", "adsorbate": "shipped", "outcome": "raised"}, {"adsorbate": a.name, "temperature": t, "raised": f"{type(e).__name__}: {e}"[:300]})
+
     # ------------------------------------------------------------------ consistency hypothesis measured on the real adsorbates
     worst = Fr(0)
     for cxr in contexts[1:]:
